@@ -79,19 +79,23 @@ def extract(api):
                         break
             else:
                 raise api.GenError(rel + ": fn run: unbalanced block")
-        if "context.arguments.len()" in rest.split("mutate_")[0].split(".get(")[0] and d != "release":
-            raise api.GenError(rel + ": fn run: an argument-count test that is not part of the leading chain")
+        # 99 / 9 = "not readable from this source shape" (tolerated by CollectionsTables.row_ok: the fact is then tied
+        # by the correspondence run only); the extractor never guesses
+        if min_args == 0 and re.search(r"arguments\s*(\.len\(\)|\.as_slice\(\)|\.split_first\(\)|\.first\(\)|\.get\()|match\s+&?context\.arguments", run) \
+                and d != "release":
+            min_args = 99
+        elif "context.arguments.len()" in rest.split("mutate_")[0].split(".get(")[0] and d != "release":
+            min_args = 99
         helpers = set(re.findall(r"\b(mutate_list|mutate_map|mutate_set)\(", run))
         kind = 0
         if len(helpers) > 1:
-            raise api.GenError(rel + ": fn run: several mutate_* helpers")
-        if helpers:
+            kind = 9
+        elif helpers:
             kind = {"mutate_list": 1, "mutate_map": 2, "mutate_set": 3}[helpers.pop()]
-        elif re.search(r"\.get\(", run):
-            arms = set(re.findall(r"StateValue::(List|SubState|Set)\((?:ref\s+)?\w+\)\s*=>", run))
-            if len(arms) != 1:
-                raise api.GenError(rel + ": fn run: expected exactly one StateValue arm after .get(, found %s" % sorted(arms))
-            kind = {"List": 1, "SubState": 2, "Set": 3}[arms.pop()]
+        else:
+            # a match arm on the looked-up value; 9 (not determined) unless exactly one collection arm is matched
+            arms = set(re.findall(r"StateValue::(List|SubState|Set)\((?:ref\s+)?(?:mut\s+)?\w+\)\)?\s*=>", run))
+            kind = {"List": 1, "SubState": 2, "Set": 3}[arms.pop()] if len(arms) == 1 else 9
         rows.append((d, aliases, False, min_args, kind))
     return rows
 
